@@ -155,13 +155,16 @@ def gen_lean():
     plus = ast.unparse(second.right) if isinstance(second, ast.BinOp) and isinstance(second.op, ast.Add) else "?"
     range_facts = sent + ["stop = last + " + plus]
     # --- copy path: fields assigned in __init__ vs. constructor arguments of __copy_create__
+    # (private attributes are identified by the constructor parameter they are built from: their own names may change)
+    lab = {c: c13_norm.field_labels(k) for c, k in (("Location", loc), ("Feature", feat_cls), ("Annotation", annot_cls), ("AnnotatedSequence", aseq))}
+    L = lambda cname, attr: lab[cname].get(attr, attr)
     init_fields = []
     for n in ast.walk(_func(aseq, "__init__")):
         if isinstance(n, ast.Assign):
             for t in n.targets:
                 if isinstance(t, ast.Attribute) and isinstance(t.value, ast.Name) and t.value.id == "self":
                     src = n.value.id if isinstance(n.value, ast.Name) else "?"
-                    init_fields.append((t.attr, src))
+                    init_fields.append((L("AnnotatedSequence", t.attr), src))
     init_params = [a.arg for a in _func(aseq, "__init__").args.args[1:]]
     cc = _func(aseq, "__copy_create__")
     ret = [n for n in ast.walk(cc) if isinstance(n, ast.Return)]
@@ -172,12 +175,12 @@ def gen_lean():
         def is_self_attr(x):
             return isinstance(x, ast.Attribute) and isinstance(x.value, ast.Name) and x.value.id == "self"
         if is_self_attr(e):
-            return e.attr, "plain"
+            return L("AnnotatedSequence", e.attr), "plain"
         if isinstance(e, ast.Call) and not e.args and not e.keywords and isinstance(e.func, ast.Attribute) \
                 and e.func.attr == "copy" and is_self_attr(e.func.value):
-            return e.func.value.attr, "copyCall"
+            return L("AnnotatedSequence", e.func.value.attr), "copyCall"
         if isinstance(e, ast.Attribute) and is_self_attr(e.value):
-            return e.value.attr, "other"      # e.g. the bound method `self._x.copy`
+            return L("AnnotatedSequence", e.value.attr), "other"      # e.g. the bound method `self._x.copy`
         return "?", "other"
     call = ret[0].value
     args = [(init_params[i] if i < len(init_params) else "?",) + kind(a) for i, a in enumerate(call.args)]
@@ -219,7 +222,7 @@ def gen_lean():
                         kinds[t.attr] = "mutable" if kinds.get(t.attr, k) != k else k
         if not kinds:
             raise ValueError(f"{cname}.__init__ assigns no attribute")
-        field_kinds += [(cname, a, k) for a, k in kinds.items()]
+        field_kinds += [(cname, L(cname, a), k) for a, k in kinds.items()]
         for fn in cls.body:
             if not isinstance(fn, ast.FunctionDef) or fn.name.startswith("__"):
                 continue
@@ -231,13 +234,13 @@ def gen_lean():
                 continue
             v = rets[0].value
             if self_attr(v):
-                accessors.append((cname, fn.name, v.attr, "plain"))
+                accessors.append((cname, fn.name, L(cname, v.attr), "plain"))
             elif isinstance(v, ast.Call) and isinstance(v.func, ast.Attribute) and len(v.args) == 1 and not v.keywords \
                     and self_attr(v.args[0]) and getattr(v.func.value, "id", None) == "copy" and v.func.attr in ("copy", "deepcopy"):
-                accessors.append((cname, fn.name, v.args[0].attr, "copy"))
+                accessors.append((cname, fn.name, L(cname, v.args[0].attr), "copy"))
             elif isinstance(v, ast.Call) and isinstance(v.func, ast.Attribute) and v.func.attr == "copy" and not v.args \
                     and self_attr(v.func.value):
-                accessors.append((cname, fn.name, v.func.value.attr, "copy"))
+                accessors.append((cname, fn.name, L(cname, v.func.value.attr), "copy"))
             # anything else is a computed value (e.g. get_location_range): hands out no internal object
     for need in (("Feature", "qual"), ("Feature", "locs"), ("Annotation", "get_features")):
         if not any((c, a) == need for c, a, _, _ in accessors):
@@ -246,8 +249,8 @@ def gen_lean():
     acc = _func(_class(ann, "Annotation"), "__copy_create__")
     aret = [n for n in ast.walk(acc) if isinstance(n, ast.Return)]
     if len(aret) != 1 or not isinstance(aret[0].value, ast.Call) or getattr(aret[0].value.func, "id", None) != "Annotation" \
-            or len(aret[0].value.args) != 1 or self_attr(aret[0].value.args[0]) != "_features":
-        raise ValueError("Annotation.__copy_create__: expected `return Annotation(self._features)`")
+            or len(aret[0].value.args) != 1 or L("Annotation", self_attr(aret[0].value.args[0]) or "?") != "F_features":
+        raise ValueError("Annotation.__copy_create__: expected `return Annotation(<the attribute built from `features`>)`")
     # --- nucleotide alphabets and complement (seqtypes.py)
     st = ast.parse(_src("sequence/seqtypes.py"))
     nuc = _class(st, "NucleotideSequence")
